@@ -165,7 +165,7 @@ def decideLen (v : Bytes) : Body :=
 /-- `parse_connection_headers` after cookie parsing: Host rule, [F3 fix: duplicate framing
     fields], Transfer-Encoding, Content-Length. `http11` = `MHD_IS_HTTP_VER_1_1_COMPAT`.
     `chunked mc`: `mc` = `keepalive` was set to `MHD_CONN_MUST_CLOSE` (TE + CL tolerated at a
-    lenient level; [F14 fix] HTTP/1.0 request with Transfer-Encoding). -/
+    lenient level; [F16 fix] HTTP/1.0 request with Transfer-Encoding). -/
 def decideBody (lvl : Int) (http11 : Bool) (fs : List Field) : Body :=
   if hostAboveLvl < lvl ∧ http11 = true ∧ (lookup fs hdrHost).isNone then .reject httpBadRequest
   else if 1 < countName fs hdrTransferEncoding ∨ 1 < countName fs hdrContentLength then
@@ -176,7 +176,7 @@ def decideBody (lvl : Int) (http11 : Bool) (fs : List Field) : Body :=
       if ! eqCI enc tokChunked then .reject httpBadRequest
       else if (lookup fs hdrContentLength).isSome then
         if teClRejectFromLvl ≤ lvl then .reject httpBadRequest else .chunked true
-      else .chunked (! http11)        -- [F14 fix] HTTP/1.0 + Transfer-Encoding: must close
+      else .chunked (! http11)        -- [F16 fix] HTTP/1.0 + Transfer-Encoding: must close
     | none =>
       match lookup fs hdrContentLength with
       | some v => decideLen v
